@@ -131,7 +131,7 @@ namespace Pistache::Http
         for (const auto& idlePeer : idlePeers)
         {
             ResponseWriter response(Http::Version::Http11, this, static_cast<Http::Handler*>(handler_.get()), idlePeer);
-            response.send(Http::Code::Request_Timeout).then([=](ssize_t) { removePeer(idlePeer); }, [=](std::exception_ptr) { removePeer(idlePeer); });
+            response.send(Http::Code::Request_Timeout).then([=](ssize_t) { handlePeerDisconnection(idlePeer); }, [=](std::exception_ptr) { handlePeerDisconnection(idlePeer); });
         }
     }
 
